@@ -39,3 +39,41 @@ func VerifSFDatagramAny() {
 	}
 	verifReach("end")
 }
+
+// a reader that counts the octets it delivers (binary.Read, io.ReadFull and Read all go
+// through Read; Seek does not deliver anything)
+type verifCountReader struct {
+	R *bytes.Reader
+	N int
+}
+
+func (c *verifCountReader) Read(p []byte) (int, error) {
+	n, err := c.R.Read(p)
+	c.N += n
+	return n, err
+}
+func (c *verifCountReader) Seek(o int64, w int) (int64, error) { return c.R.Seek(o, w) }
+
+// C02: decoding reads no octet of the datagram twice: the octets delivered to the decoder in
+// total never exceed the datagram's length (the decoders only move forwards; skipping is by
+// seeking). Up to S samples with up to R records each are followed.
+func VerifSFReadOnce() {
+	lo := verifParam("rlo", 28)
+	step := verifParam("rstep", 8)
+	s := verifSplit(verifParam("rsplit", 6))
+	n := verifNondetInt()
+	verifAssume(verifAll(n > lo+s*step, n <= lo+(s+1)*step))
+	buf := verifNondetBytes(n)
+	c := &verifCountReader{R: bytes.NewReader(buf)}
+	var filter []uint32
+	if verifCase(2) == 1 {
+		filter = []uint32{verifNondetU32()}
+	}
+	d := NewSFDecoder(c, filter)
+	verifLoopBound("SFDecoder).SFDecode", verifParam("RS", 3))
+	verifLoopBound("sflow.decodeFlowSample", verifParam("RR", 2))
+	verifLoopBound("sflow.decodeFlowCounter", verifParam("RR", 2))
+	d.SFDecode()
+	verifAssert(c.N <= n, "the octets read in total do not exceed the datagram's length (nothing is decoded twice)")
+	verifReach("end")
+}
